@@ -40,7 +40,7 @@ Proof. exact parts_interleave_corrupts. Qed.
 (* tie to the source: the facts the theorems rest on, regenerated from the current tree *)
 Definition cfg_ok_C08 : Prop :=
   msg_header_format = HEADER_FMT /\ to_io_single_write = true /\ read_loops_exact = true /\ from_io_exact = true /\
-  wshape_atomic popen_write_shape = true /\ wshape_atomic socket_write_shape = true /\ popen_streams_buffered = true /\ proxy_master_ok = true /\ socket_io_blocking = true.
+  wshape_atomic popen_write_shape = true /\ wshape_atomic socket_write_shape = true /\ popen_streams_buffered = true /\ proxy_master_ok = true /\ socket_io_blocking = true /\ boot_ack_read_unconditional = true.
 Lemma C08_cfg_ok : cfg_ok_C08.
 Proof. repeat split; reflexivity. Qed.
 
